@@ -265,18 +265,36 @@ func (a *Operator) useHexEscapes(input string) string {
 func (o *Operator) dontUseFlagsForMetaCharacters(input string) string {
 	result := input
 	flagsStartRegexp := regexp.MustCompile(`\(\?[-misU]+\)`)
-	result = flagsStartRegexp.ReplaceAllLiteralString(result, "")
+	for {
+		location := findUnescapedMatch(flagsStartRegexp, result)
+		if location == nil {
+			break
+		}
+		result = result[:location[0]] + result[location[1]:]
+	}
 
 	flagGroupStartRegexp := regexp.MustCompile(`\(\?[-misU]+:`)
 	for {
-		location := flagGroupStartRegexp.FindStringIndex(result)
-		if len(location) > 0 {
-			result = o.removeGroup(result, location[0], location[1], false)
-		} else {
+		location := findUnescapedMatch(flagGroupStartRegexp, result)
+		if location == nil {
 			break
 		}
+		result = o.removeGroup(result, location[0], location[1], false)
 	}
 	return result
+}
+
+// Returns the location of the first match of `pattern` in `input` that does not start
+// with an escaped character, `nil` if there is none.
+// An escaped parenthesis followed by `?` and flag letters (e.g. `\(?i:`) is
+// ordinary regex text, not a flag group, and must be left alone.
+func findUnescapedMatch(pattern *regexp.Regexp, input string) []int {
+	for _, location := range pattern.FindAllStringIndex(input, -1) {
+		if !utils.IsEscaped(input, location[0]) {
+			return location
+		}
+	}
+	return nil
 }
 
 // Remove groups like `...(?-s:...)...`.
